@@ -2,6 +2,8 @@ import A2lVerif.Driver.ItemList
 import A2lVerif.Driver.Limits
 import A2lVerif.Driver.Encoding
 import A2lVerif.Driver.Sort
+import A2lVerif.Driver.Tree
+import A2lVerif.Driver.Lex
 /-! `a2lmodel`: one request per line on stdin, one canonical answer per line on stdout. -/
 open A2l
 
@@ -9,6 +11,8 @@ def dispatch (line : String) : String :=
   match (line.trimAscii.toString.splitOn " ").filter (· ≠ "") with
   | "il" :: args => IL.handle args
   | "lim" :: args => Lim.handle args
+  | "a2l" :: args => Tree.handle args
+  | "lex" :: args => Lex.handle args
   | "srt" :: args => Srt.handle args
   | "dec" :: args => Enc.handle "dec" args
   | "load" :: args => Enc.handle "load" args
